@@ -1,5 +1,4 @@
-import SciVerif.Drive.Util
+import SciVerif.Drive.C13
 open Lean SciVerif.Drive
 
-/-- C13 model driver: not built yet. -/
-def main : IO Unit := serve (fun _ => throw "C13: no model yet")
+def main : IO Unit := serve SciVerif.C13.Drive.handle
